@@ -21,6 +21,7 @@ Driver-side relational oracles (run_case):
                                                        and place_object move density at the same offset (cube rotations)
 """
 import math
+import os
 import re
 
 import numpy as np
@@ -60,6 +61,14 @@ ASSUMPTIONS = [
     "windows and templates are judged for even box sizes only (quantifier); window = [floor(c - N/2), floor(c - N/2)+N) per axis; copied voxels exact, fill = volume mean to max(1e-9, 64 eps of the volume dtype) relative",
     "place_object thresholds the rotated template at 0.1 (source); smooth templates: voxels whose closed-form rotated value is within 0.004 of 0.1 "
     "are undetermined (measured need 0.00047); stamp centroid within 0.7 voxel of floor(p-1) + R.(centroid of the thresholded template) (measured 0.13)",
+    "round 6 forms, all judged (the unchanged tree handles them): maps / templates / containers that are Fortran-ordered, transposed, axis-swapped, negatively "
+    "strided, every-other-plane views or read-only; int8 / uint8 / bool / int16 / int64 / float32 maps and templates (generic rotations: result compared with the "
+    "result for the same values as float64 at the existing interpolation tolerances - rotate_dtype 1 % of the maximum, sym_dtype 0.3 %, place_dtype exact outside the "
+    "0.004 band around the threshold); volume= and a single template given as .em / .mrc / .rec / .st / .mrc.N paths (odd names, sub-directories, relative paths; "
+    "parsed from bytes by the monitor); particle tables with repeated / reversed / permuted / gapped row labels and integer-typed position and angle columns; "
+    "np.True_ / np.False_ / np.int64 for transpose_rotation, degrees, spline_order; objects returned by one anchor fed into another",
+    "outside the quantifier by ruling (forms the unchanged tree does not handle; counted out of domain, never generated): enforce_shape=np.False_ or 0 for "
+    "extract_subvolume (the code tests `is not False`: the enforce_shape=True mode is taken); np.int64 symmetry orders (refused with the documented ValueError)",
     "colour = value of the colouring field in the particle's ROW (by position), cast to the container dtype; colour 0 is a colour like any other",
     "resolution for non-right-angle rotations: the implementation-independent oracle (closed-form rotated Gaussians) sees deviations above ~1e-3 of the "
     "peak only (the interpolation error of any reasonable scheme); a perturbation of the pull-back matrix at 1e-6 (density change 2e-6..1e-5 of the peak) "
@@ -88,12 +97,12 @@ def plan(tier):
     if tier == "quick":
         return dict(n_cases=18 * 14, shards=2, classes=CLASSES, timeout_s=600, env=env,
                     min_evals={"rotate_cube": 1600, "rotate_analytic": 40, "rotate_centroid": 40, "rotate_inverse": 40,
-                               "window_indices": 1250, "extract_window": 150, "extract_window_reused": 70, "coord_unchanged": 1400, "place_cube": 45, "place_random": 12, "place_centroid": 15,
+                               "window_indices": 1250, "extract_window": 150, "extract_window_reused": 70, "coord_unchanged": 1400, "place_cube": 45, "place_random": 8, "place_centroid": 12, "place_dtype": 8, "rotate_dtype": 20, "sym_dtype": 12,
                                "sym_mean": 40, "sym_invariant_exact": 12, "sym_analytic": 30, "sym_invariant": 30, "sym_total": 30,
                                "link_c05": 40})
     return dict(n_cases=18 * 300, shards=16, classes=CLASSES, timeout_s=3000, env=env,
                 min_evals={"rotate_cube": 23000, "rotate_analytic": 800, "rotate_centroid": 800, "rotate_inverse": 800,
-                           "window_indices": 28000, "extract_window": 3500, "extract_window_reused": 1500, "coord_unchanged": 32000, "place_cube": 800, "place_random": 270, "place_centroid": 500,
+                           "window_indices": 28000, "extract_window": 3500, "extract_window_reused": 1500, "coord_unchanged": 32000, "place_cube": 800, "place_random": 180, "place_centroid": 300, "place_dtype": 150, "rotate_dtype": 500, "sym_dtype": 250,
                            "sym_mean": 800, "sym_invariant_exact": 200, "sym_analytic": 500, "sym_invariant": 500, "sym_total": 500,
                            "link_c05": 700})
 
@@ -106,7 +115,7 @@ def _bump(ctx, key, n=1):
 # call monitors
 # =====================================================================================================
 def _is_map(x, mindim=1):
-    return (isinstance(x, np.ndarray) and x.ndim == 3 and x.dtype.kind in "fiu" and min(x.shape) >= mindim
+    return (isinstance(x, np.ndarray) and x.ndim == 3 and x.dtype.kind in "fiub" and min(x.shape) >= mindim
             and bool(np.all(np.isfinite(x))))
 
 
@@ -114,7 +123,7 @@ def _requested_rotation(A):
     """orientation R a rotate call asks for, for the two call forms of the statement; None otherwise"""
     rot, ang = A["rotation"], A["rotation_angles"]
     if rot is not None:
-        if A["transpose_rotation"] is not True:
+        if not (isinstance(A["transpose_rotation"], (bool, np.bool_)) and bool(A["transpose_rotation"])):
             return None
         try:
             R = np.asarray(rot.as_matrix(), dtype=float)
@@ -278,6 +287,17 @@ def _binary_even_template(T):
     return not (T[0].any() or T[-1].any() or T[:, 0].any() or T[:, -1].any() or T[:, :, 0].any() or T[:, :, -1].any())
 
 
+def _map_argument(x):
+    """a map given as an array or as the path of an .em / MRC-family file (parsed from bytes, indexed [x,y,z]) -> ndarray or None"""
+    if isinstance(x, np.ndarray):
+        return x
+    if isinstance(x, str) and os.path.isfile(x):
+        from vmon.oracles import files
+        d = files.parse_em(x) if x.endswith(".em") else (files.parse_mrc(x) if re.search(r"\.(mrc|ali|rec|st)(\.\d+)?$", x) else {"error": "ext"})
+        return None if "error" in d else np.array(d["data"])
+    return None
+
+
 def _place_inputs(A):
     """independent reading of a place_object call -> dict or None (outside the exact clause)"""
     motl = A["motl"]
@@ -289,6 +309,8 @@ def _place_inputs(A):
     if n < 1 or n > 20:
         return None
     obj = A["input_object"]
+    if isinstance(obj, str):
+        obj = _map_argument(obj)
     if isinstance(obj, np.ndarray):
         templ = [obj] * n
     elif isinstance(obj, list) and len(obj) == n and all(isinstance(t, np.ndarray) for t in obj):
@@ -298,9 +320,10 @@ def _place_inputs(A):
     if not all(_binary_even_template(t) for t in templ):
         return None
     if A["volume"] is not None:
-        if not _is_map(A["volume"], 1) or A["volume"].dtype.kind != "f":
+        vol_in = _map_argument(A["volume"])
+        if vol_in is None or not _is_map(vol_in, 1) or vol_in.dtype.kind != "f":
             return None
-        cont = np.array(A["volume"], copy=True)
+        cont = np.array(vol_in, copy=True)
     else:
         shp = _triple_int(A["volume_shape"])
         if shp is None:
@@ -330,6 +353,9 @@ def _post_place(ctx, A, old, res):
     exp, n_st = O.expected_placement_cube(d["templ"], d["Ms"], d["P"], d["colours"], d["cont"])
     exp = exp.astype(d["cont"].dtype).astype(float)
     _bump(ctx, "place_cube_voxels_stamped", n_st)
+    if A["volume"] is not None:
+        v = A["volume"]
+        _bump(ctx, "place_cube_container_" + ("path" if isinstance(v, str) else "C_order" if v.flags["C_CONTIGUOUS"] else "F_order" if v.flags["F_CONTIGUOUS"] else "strided"))
     _bump(ctx, "place_cube_particles", len(d["P"]))
     w = None
     if not isinstance(res, np.ndarray) or res.shape != exp.shape:
@@ -416,7 +442,7 @@ def setup(ctx):
     f_ext = monitors.wrap(ctx, cryomap, "extract_subvolume", "extract_window", _post_extract, _app_extract, _snap_extract)
     f_plc = monitors.wrap(ctx, cryomap, "place_object", "place_cube", _post_place, _app_place)
     f_sym = monitors.wrap(ctx, cryomap, "symmetrize_volume", "sym_mean", _post_sym, _app_sym, _snap_sym)
-    ctx.declare("coord_unchanged", "extract_window_reused", "sym_invariant_exact", "rotate_analytic", "rotate_centroid", "rotate_inverse", "place_random", "place_centroid",
+    ctx.declare("place_dtype", "rotate_dtype", "sym_dtype", "coord_unchanged", "extract_window_reused", "sym_invariant_exact", "rotate_analytic", "rotate_centroid", "rotate_inverse", "place_random", "place_centroid",
                 "sym_analytic", "sym_invariant", "sym_total", "link_c05")
     Mo = cryomotl.Motl
     monitors.trace(ctx, [
@@ -452,10 +478,52 @@ def cube_angles(rng, M):
     return [float(v) for v in a], kind
 
 
+LAYOUTS = ["C", "F", "transposed", "swapped12", "negative_stride", "every_other", "readonly"]
+
+
+def relayout(a, kind):
+    """the same values and shape in another memory layout (round 6: what a value-oriented generator does not vary)"""
+    a = np.asarray(a)
+    if kind == "F":
+        return np.asfortranarray(a)
+    if kind == "transposed":
+        return np.ascontiguousarray(a.transpose(2, 1, 0)).transpose(2, 1, 0)
+    if kind == "swapped12":
+        return np.swapaxes(np.ascontiguousarray(np.swapaxes(a, 1, 2)), 1, 2)
+    if kind == "negative_stride":
+        return np.ascontiguousarray(a[::-1, :, ::-1])[::-1, :, ::-1]
+    if kind == "every_other":
+        big = np.zeros((2 * a.shape[0],) + a.shape[1:], dtype=a.dtype)
+        big[::2] = a
+        return big[::2]
+    b = np.array(a, copy=True)
+    if kind == "readonly":
+        b.flags.writeable = False
+    return b
+
+
+PATH_NAMES = ["ribosome.em", "frame.em", "tomo [1] x.mrc", "d\u00fcr [2]/\u043a\u0430\u0440\u0442\u0430 *?.mrc", "sub dir/mem.rec", "stack.st", "m.mrc.2", "./rel/../rel/box.em"]
+
+
+def write_map_file(ctx, name, arr, tag):
+    """independent writer (struct); float32 / int8 on disk; returns a path relative to the scratch cwd for some names"""
+    from vmon.oracles import files
+    rel = os.path.join("c14_%s" % tag, name)
+    full = os.path.join(ctx.scratch, rel)
+    os.makedirs(os.path.dirname(os.path.normpath(full)), exist_ok=True)
+    if name.endswith(".em"):
+        files.write_em_raw(full, arr, code=1 if arr.dtype == np.int8 else 5)
+    else:
+        files.write_mrc_raw(full, arr, mode=0 if arr.dtype == np.int8 else 2)
+    return rel if len(tag) % 2 else full        # the harness runs with cwd = scratch: relative and absolute spellings
+
+
 def noise_volume(rng, shape):
-    dt = str(rng.choice(["f8", "f8", "f4", "i2"]))
-    if dt == "i2":
-        return rng.integers(-100, 101, size=shape).astype(np.int16)
+    dt = str(rng.choice(["f8", "f8", "f4", "i2", "i1", "u1", "b1", "i8"]))
+    if dt in ("i2", "i8"):
+        return rng.integers(-100, 101, size=shape).astype(dt)
+    if dt in ("i1", "u1", "b1"):
+        return (rng.random(shape) < 0.4).astype({"i1": np.int8, "u1": np.uint8, "b1": bool}[dt]) * (1 if dt == "b1" else np.array(3, dtype={"i1": np.int8, "u1": np.uint8}.get(dt)))
     return (rng.normal(size=shape) * float(rng.choice([1.0, 1.0, 1e3, 1e-3])) + float(rng.choice([0.0, 5.0]))).astype(dt)
 
 
@@ -482,9 +550,23 @@ def gen_cube(rng, cls, big):
             ang, akind = [ang[0] - 360.0, ang[1], ang[2] + 720.0], akind + "+wide_rad"
         calls.append({"cube": int(k), "style": style, "angles": ang, "alias": akind, "order": int(rng.choice([3, 3, 3, 1])),
                       "as": str(rng.choice(["list", "array", "tuple"]))})
-    return {"vol": vol, "calls": calls, "mutate": str(rng.choice(["none", "negate", "flip_and_poke", "refill"])),
+    layout = str(rng.choice(LAYOUTS))
+    return {"vol": vol, "calls": calls, "layout": layout, "np_flags": bool(rng.random() < 0.4),
+            "mutate": "none" if (layout == "readonly" or vol.dtype.kind in "bu") else str(rng.choice(["none", "negate", "flip_and_poke", "refill"])),
             "summary": {"box": list(shape), "dtype": str(vol.dtype), "calls": [{k: c[k] for k in ("cube", "style", "alias", "order")} for c in calls],
                         "angles0": calls[0]["angles"], "v0": float(vol.reshape(-1)[0])}}
+
+
+def draw_typed(rng):
+    """an integer / bool rendering of a smooth map: binary mask or scaled-and-rounded values"""
+    return [("mask", "u1", 1), ("mask", "i1", 1), ("mask", "b1", 1), ("scaled", "i2", 1000), ("scaled", "i1", 20), ("scaled", "u1", 7)][int(rng.integers(0, 6))]
+
+
+def typed_map(vol, typed):
+    kind, dt, scale = typed
+    if kind == "mask":
+        return (vol > 0.4 * vol.max()).astype(TDT[dt])
+    return np.round(vol / vol.max() * scale).astype(TDT[dt])
 
 
 def gen_blob(rng, cls, big):
@@ -498,6 +580,7 @@ def gen_blob(rng, cls, big):
     kind = {"blob_random": "random", "blob_gimbal": str(rng.choice(["gimbal", "near_gimbal"])), "blob_wide": "wide"}[cls]
     ang = [float(v) for v in so3.random_euler(rng, 1, kind)[0]]
     return {"shape": shape, "blob": B, "angles": ang, "style": str(rng.choice(["angles", "rotation_T", "angles_rad"])), "inv_style": str(rng.choice(["angles", "rotation_T", "angles_rad"])),
+            "typed": draw_typed(rng) if rng.random() < 0.6 else None, "layout": str(rng.choice(LAYOUTS)), "np_flags": bool(rng.random() < 0.3),
             "summary": {"box": list(shape), "angles": np.round(ang, 6).tolist(), "kind": kind, "blob": B.summary()}}      # styles are drawn after: not part of the digest
 
 
@@ -574,7 +657,9 @@ def gen_extract(rng, cls, big):
             delta = [float(v) for v in rng.choice([-3.0, -1.0, -0.5, 0.0, 0.5, 1.0, 2.0, 7.0], 3)]
         seq.append({"N": list(first["N"]) if same_size else [int(2 * rng.integers(1, 9)) for _ in range(3)], "vol": int(rng.integers(0, 2)), "delta": delta})
     reuse = {"coord": first["coord"], "start": first["start"], "frac": first["frac"], "seq": seq}
-    return {"vol": vol, "vol2": vol2, "wins": wins, "reuse": reuse,
+    if rng.random() < 0.1:
+        vol = np.full(tuple(V), float(rng.choice([0.0, 3.0, -2.5])))           # a single distinct value (also: all zero)
+    return {"vol": vol, "vol2": vol2, "wins": wins, "reuse": reuse, "layout": str(rng.choice(LAYOUTS)), "chain_cube": int(rng.integers(1, 24)),
             "summary": {"volume": V, "dtype": str(vol.dtype), "windows": [{"window": w["N"], "start": w["start"], "frac": w["frac"]} for w in wins],
                         "coord0": np.round(wins[0]["coord"], 6).tolist(), "v0": float(vol.reshape(-1)[0]),
                         "reuse": {"coord": np.round(reuse["coord"], 6).tolist(), "calls": [{"window": q["N"], "volume": q["vol"], "moved_by": q.get("delta")} for q in seq], "volume2": V2}}}
@@ -760,11 +845,12 @@ def gen_place(rng, cls, big, force=None):
     feature = force.get("feature", feature)
     fcol = "object_id" if feature == "default" else feature
     df[fcol] = colour_values(rng, n, fcol)
-    container = str(rng.choice(["shape_tuple", "shape_list", "volume_zeros", "volume_bg64", "volume_bg32"]))
+    container = str(rng.choice(["shape_tuple", "shape_list", "volume_zeros", "volume_bg64", "volume_bg32", "volume_bg64_F", "volume_bg64_transposed",
+                                "volume_bg32_F", "volume_bg64_every_other", "volume_bg64_negative_stride", "volume_bg32_path", "volume_bg32_path"]))
     container = force.get("container", container)
     bg = None
     if container.startswith("volume"):
-        bg = np.zeros(V, dtype=np.float32 if container.endswith("32") else np.float64)
+        bg = np.zeros(V, dtype=np.float32 if "32" in container else np.float64)
         if "bg" in container:
             bg[...] = rng.integers(-3, 0, size=V)          # background distinct from every colour (colours >= 0)
     # colour 0 is a colour like any other: planted on LATER particles that overlap earlier stamps and on pre-filled containers
@@ -779,10 +865,27 @@ def gen_place(rng, cls, big, force=None):
     if dup is not None and rng.random() < 0.4:
         twin = dup                                               # an exact duplicate row (pose and colour too)
         df.iloc[dup] = df.iloc[dup - 1]
+    if bg is not None and "bg" in container and rng.random() < 0.12:
+        df[fcol] = 0.0                                           # a colouring column that is 0 everywhere
+        zero_planted = n
     history = bool((not smooth) and rng.random() < 0.5)          # second call after in-place edits of the caller's table
+    # template forms: dtype / memory layout / file path (binary templates), integer-typed position and angle columns
+    tdtype = "f8" if smooth else str(rng.choice(["f8", "f8", "f4", "i1", "u1", "b1", "i2"]))
+    tlayout = str(rng.choice(LAYOUTS))
+    tpath = bool((not smooth) and (not per_particle) and rng.random() < 0.25)
+    path_name = str(rng.choice(PATH_NAMES))
+    tpath_name = str(rng.choice(PATH_NAMES))
+    int_columns = bool((not smooth) and rng.random() < 0.3)
+    if (not smooth) and rng.random() < 0.06:
+        templ = [np.zeros_like(t) for t in templ]                # an all-zero template: nothing may be stamped
+    mask_dtype = None
+    if smooth and rng.random() < 0.45:
+        # binary masks of the blobs in an integer / bool dtype (random poses): judged against the same values as float64 (place_dtype)
+        mask_dtype = str(rng.choice(["i1", "u1", "b1"]))
+        templ = [(t > 0.35 * t.max()).astype({"i1": np.int8, "u1": np.uint8, "b1": bool}[mask_dtype]) for t in templ]
     variant = None
     if cls == "place_filtered":
-        variant = str(rng.choice(["remove_feature", "remove_feature", "permuted_index", "offset_index"]))
+        variant = str(rng.choice(["remove_feature", "remove_feature", "permuted_index", "offset_index", "repeated_index", "repeated_index", "reversed_index"]))
         df["geom2"] = rng.integers(0, 5, n).astype(float)
         if variant == "remove_feature":
             k = int(rng.integers(1, 4))
@@ -800,7 +903,13 @@ def gen_place(rng, cls, big, force=None):
             df_full = pd.concat(parts, ignore_index=True)
         else:
             df_full = df.copy()
-            if variant == "permuted_index" and n > 1:
+            if variant == "repeated_index" and n > 1:
+                # what pd.concat of two lists without ignore_index leaves behind: 0..k-1, 0..n-k-1
+                k = int(rng.integers(1, n))
+                df_full.index = list(range(k)) + list(range(n - k))
+            elif variant == "reversed_index" and n > 1:
+                df_full.index = np.arange(n)[::-1]
+            elif variant == "permuted_index" and n > 1:
                 p = rng.permutation(n)
                 while np.array_equal(p, np.arange(n)):
                     p = rng.permutation(n)
@@ -810,8 +919,9 @@ def gen_place(rng, cls, big, force=None):
                 df_full.index = np.arange(n) + int(rng.integers(1, 5))
         df = df_full
     return {"V": V, "templ": templ, "blobs": blobs, "per_particle": per_particle, "df": df, "n": n, "feature": feature, "container": container, "bg": bg,
-            "variant": variant, "smooth": smooth, "kinds": kinds, "history": history, "fcol": fcol,
-            "summary": {"n": n, "zero_coloured": zero_planted, "same_position_pair": dup, "duplicate_row": twin, "history": history, "volume": V, "templates": [list(s) for s in tshapes[:3]], "per_particle": per_particle, "feature": feature,
+            "variant": variant, "smooth": smooth, "kinds": kinds, "history": history, "fcol": fcol, "tdtype": tdtype, "tlayout": tlayout, "tpath": tpath,
+            "path_name": path_name, "tpath_name": tpath_name, "int_columns": int_columns, "mask_dtype": mask_dtype,
+            "summary": {"template_form": [tdtype, tlayout, tpath, mask_dtype], "int_columns": int_columns, "n": n, "zero_coloured": zero_planted, "same_position_pair": dup, "duplicate_row": twin, "history": history, "volume": V, "templates": [list(s) for s in tshapes[:3]], "per_particle": per_particle, "feature": feature,
                         "container": container, "variant": variant, "position_kinds": sorted(set(kinds)), "angle_kinds": sorted(set(akinds)),
                         "P0": np.round(P[0], 4).tolist(), "angles0": np.round(ang[0], 4).tolist()}}
 
@@ -831,7 +941,8 @@ def gen_sym(rng, cls, big):
         shape = tuple(int(v) for v in rng.integers(6, 17, 3)) if rng.random() < 0.6 else (int(rng.integers(6, 17)),) * 3
     noise = noise_volume(rng, shape) if content == "noise" else None
     spelling = str(rng.choice(["int", "int", "C", "c", "digits", "float"]))
-    return {"n": n, "shape": shape, "blob": B, "noise": noise, "content": content, "spelling": spelling,
+    return {"n": n, "shape": shape, "blob": B, "noise": noise, "content": content, "spelling": spelling, "typed": draw_typed(rng) if rng.random() < 0.45 else None,
+            "layout": str(rng.choice(LAYOUTS)),
             "summary": {"n": n, "box": list(shape), "content": content, "spelling": spelling, "blob": B.summary() if content == "blob" else None,
                         "v0": float(noise.reshape(-1)[0]) if noise is not None else None}}
 
@@ -909,30 +1020,33 @@ def _as(kind, seq):
     return {"list": list(seq), "tuple": tuple(seq), "array": np.array(seq), "int_array": np.array(seq).astype(int)}[kind]
 
 
-def real_rotate(ctx, label, vol, R=None, angles=None, style="angles", order=3, seq="list"):
+def real_rotate(ctx, label, vol, R=None, angles=None, style="angles", order=3, seq="list", np_flags=False):
+    """np_flags: flags and numbers given as numpy scalars (np.True_, np.False_, np.int64) instead of Python ones"""
     from scipy.spatial.transform import Rotation
-    kw = {} if order == 3 else {"spline_order": order}
+    kw = {} if (order == 3 and not np_flags) else {"spline_order": np.int64(order) if np_flags else order}
     if style == "rotation_T":
         if R is None:
             R = so3.zxz(*angles)
-        return ctx.call(label, ctx.cmap.rotate, vol, rotation=Rotation.from_matrix(np.asarray(R, dtype=float)), transpose_rotation=True, **kw)
+        return ctx.call(label, ctx.cmap.rotate, vol, rotation=Rotation.from_matrix(np.asarray(R, dtype=float)), transpose_rotation=np.True_ if np_flags else True, **kw)
     if style == "angles_rad":
-        return ctx.call(label, ctx.cmap.rotate, vol, rotation_angles=_as(seq, [math.radians(a) for a in angles]), degrees=False, **kw)
+        return ctx.call(label, ctx.cmap.rotate, vol, rotation_angles=_as(seq, [math.radians(a) for a in angles]), degrees=np.False_ if np_flags else False, **kw)
+    if np_flags:
+        kw["degrees"] = np.True_
     return ctx.call(label, ctx.cmap.rotate, vol, rotation_angles=_as(seq, angles), **kw)
 
 
 def run_cube(ctx, case):
-    vol = case["vol"]
+    vol = relayout(case["vol"], case["layout"])
     for c in case["calls"]:
         M = np.asarray(CUBES[c["cube"]], dtype=float)
-        real_rotate(ctx, "rotate", vol, R=M, angles=c["angles"], style=c["style"], order=c["order"], seq=c["as"])     # judged by rotate_cube
+        real_rotate(ctx, "rotate", vol, R=M, angles=c["angles"], style=c["style"], order=c["order"], seq=c["as"], np_flags=case["np_flags"])     # judged by rotate_cube
     if case["mutate"] != "none":
         # history: the caller's map is modified IN PLACE and rotated again (every call is judged on the values the array holds then)
         if case["mutate"] == "negate":
             np.negative(vol, out=vol)
         elif case["mutate"] == "flip_and_poke":
             vol[...] = vol[::-1, :, ::-1].copy()
-            vol[tuple(O.centre(vol.shape))] += 7
+            vol[tuple(O.centre(vol.shape))] += 7 if vol.dtype.kind != "b" else 0
         else:
             vol[...] = np.arange(vol.size).reshape(vol.shape) % 97
         for c in case["calls"][:2]:
@@ -945,9 +1059,21 @@ def run_cube(ctx, case):
 def run_blob(ctx, case):
     B, shape, ang = case["blob"], case["shape"], case["angles"]
     R = so3.zxz(*ang)
-    vol = B.render(shape)
+    vol = relayout(B.render(shape), case["layout"])
     peak = float(vol.max())
-    ok, out = real_rotate(ctx, "rotate", vol, R=R, angles=ang, style=case["style"])
+    if case["typed"] is not None:
+        # integer / bool typed map, generic rotation: the result must be the one obtained from the same values as float64
+        vt = relayout(typed_map(np.asarray(vol), case["typed"]), case["layout"])
+        ok1, a = real_rotate(ctx, "rotate", vt, R=R, angles=ang, style=case["style"], np_flags=case["np_flags"])
+        ok2, b = real_rotate(ctx, "rotate", np.array(vt, dtype=np.float64), R=R, angles=ang, style=case["style"])
+        if ok1 and ok2 and isinstance(a, np.ndarray) and isinstance(b, np.ndarray) and a.shape == b.shape:
+            d = np.abs(a.astype(float) - b)
+            j = np.unravel_index(int(np.argmax(d)), d.shape)
+            mx = float(np.abs(vt.astype(float)).max())
+            ctx.check("rotate_dtype", d.max() <= TOL_ANALYTIC * mx,
+                      {"what": "rotating a %s map differs from rotating the same values as float64" % vt.dtype, "kind": case["typed"][0], "angles": ang, "call": case["style"],
+                       "max_abs_diff_over_max": float(d.max() / mx), "voxel": list(map(int, j)), "typed_result": float(a[j]), "float64_result": float(b[j]), "result_dtype": str(a.dtype)})
+    ok, out = real_rotate(ctx, "rotate", vol, R=R, angles=ang, style=case["style"], np_flags=case["np_flags"])
     if not ok:
         return
     if not isinstance(out, np.ndarray) or out.shape != vol.shape:
@@ -963,6 +1089,7 @@ def run_blob(ctx, case):
     ctx.check("rotate_centroid", np.abs(c_out - R @ c_in).max() <= TOL_CENTROID,
               {"what": "centroid of the rotated map is not R.(centroid of the map)", "angles": ang, "call": case["style"], "centroid_in": c_in.tolist(),
                "centroid_out": c_out.tolist(), "R_centroid_in": (R @ c_in).tolist()})
+    ctx.call("extract_subvolume", ctx.cmap.extract_subvolume, out, O.centre(shape) + np.array([1.5, -2.0, 0.25]), (8, 12, 6))   # an anchor's output as input: judged by extract_window
     inv = [-ang[2], -ang[1], -ang[0]]                      # (Rz(psi) Rx(theta) Rz(phi))^-1 = Rz(-phi) Rx(-theta) Rz(-psi)
     ok, back = real_rotate(ctx, "rotate", out, R=R.T, angles=inv, style=case["inv_style"])
     if ok and isinstance(back, np.ndarray) and back.shape == vol.shape:
@@ -983,11 +1110,16 @@ def direct_indices(ctx, coord, volume_shape, sub_shape, coord_as="array"):
 
 def run_extract(ctx, case):
     cm = ctx.cmap
-    vol = case["vol"]
-    for w in case["wins"]:
+    vol = relayout(case["vol"], case.get("layout", "C"))
+    for k, w in enumerate(case["wins"]):
         coord = _as(w["coord_as"], w["coord"])
         shp = _as(w["shape_as"], w["N"])
-        ctx.call("extract_subvolume", cm.extract_subvolume, vol, coord, shp)              # judged by extract_window + window_indices
+        ok, sub = ctx.call("extract_subvolume", cm.extract_subvolume, vol, coord, shp)              # judged by extract_window + window_indices
+        if ok and k == 0 and isinstance(sub, np.ndarray) and sub.ndim == 3 and min(sub.shape) >= 4 and sub.size <= 40 ** 3:
+            # the very object extract_subvolume returned goes on into the other anchors (judged like a fresh map with these values)
+            M = CUBES[case.get("chain_cube", 1)]
+            real_rotate(ctx, "rotate", sub, R=np.asarray(M, dtype=float), angles=[float(a) for a in so3.to_zxz(np.asarray(M, dtype=float))], style="rotation_T")
+            call_sym(ctx, sub, 2, "C")
         direct_indices(ctx, w["coord"], vol.shape, w["N"], w["coord_as"])
         if w["enforce_too"]:
             try:
@@ -1028,6 +1160,11 @@ def run_extract_reuse(ctx, case):
 def build_motl(ctx, case):
     cm = ctx.cmotl
     df = case["df"].copy()
+    if case.get("int_columns"):
+        for c in ("x", "y", "z", "phi", "theta", "psi"):        # integer-typed columns where the values are integral
+            v = df[c].to_numpy()
+            if np.all(v == np.round(v)) and np.abs(v).max() < 2 ** 50:
+                df[c] = v.astype(np.int64 if c in ("x", "phi") else np.int32)
     ok, m = ctx.call("Motl(df)", cm.Motl, df)
     if not ok:
         return None
@@ -1043,14 +1180,26 @@ def call_place(ctx, m, *a, **k):
     return ok, r
 
 
-def place_args(case):
-    templ = [np.array(t, copy=True) for t in case["templ"]]
+TDT = {"f8": np.float64, "f4": np.float32, "i1": np.int8, "u1": np.uint8, "b1": bool, "i2": np.int16}
+
+
+def place_args(case, ctx=None, tag="a"):
+    dt = TDT[case.get("tdtype", "f8")]
+    templ = [relayout(np.array(t, copy=True) if case.get("mask_dtype") else np.array(t, copy=True).astype(dt), case.get("tlayout", "C")) for t in case["templ"]]
     obj = templ if case["per_particle"] else templ[0]
+    if case.get("tpath") and ctx is not None and not case["per_particle"]:
+        t0 = np.asarray(templ[0])
+        obj = write_map_file(ctx, case["tpath_name"], t0.astype(np.int8) if t0.dtype.kind in "iub" else t0.astype(np.float32), "t%d%s" % (case["i"], tag))
     kw = {}
-    if case["container"] == "shape_tuple":
+    cont = case["container"]
+    if cont == "shape_tuple":
         kw["volume_shape"] = tuple(case["V"])
-    elif case["container"] == "shape_list":
+    elif cont == "shape_list":
         kw["volume_shape"] = list(case["V"])
+    elif cont.endswith("_path") and ctx is not None:
+        kw["volume"] = write_map_file(ctx, case["path_name"], case["bg"], "v%d%s" % (case["i"], tag))
+    elif cont.startswith("volume_bg") and cont.count("_") >= 2 and not cont.endswith("_path"):
+        kw["volume"] = relayout(case["bg"].copy(), cont.split("_", 2)[2])
     else:
         kw["volume"] = case["bg"].copy()
     if case["feature"] != "default":
@@ -1062,7 +1211,7 @@ def run_place(ctx, case):
     m = build_motl(ctx, case)
     if m is None:
         return
-    obj, kw = place_args(case)
+    obj, kw = place_args(case, ctx, "a")
     ok, out = call_place(ctx, m, obj, m, **kw)              # binary templates + cube poses: judged by place_cube
     P0 = gens.positions(m.df) - 1.0
     for i in range(len(P0)):                                # the window of every particle, asked for directly as well
@@ -1081,12 +1230,19 @@ def run_place(ctx, case):
         fc = case["fcol"]
         m.df[fc] = m.df[fc].to_numpy()[::-1].copy()
         m.df["x"] = m.df["x"].to_numpy() + 1.0
-        call_place(ctx, m, obj, m, **place_args(case)[1])
+        call_place(ctx, m, obj, m, **place_args(case, ctx, "b")[1])
         a2, _ = cube_angles(ctx.rng(case["i"], 7), CUBES[(case["i"] * 7 + 5) % 24])
-        m.df.loc[m.df.index[0], ["phi", "theta", "psi"]] = a2
+        for c in ("phi", "theta", "psi"):                      # (integer-typed angle columns cannot take a fractional angle under pandas 3)
+            m.df[c] = m.df[c].to_numpy().astype(float)
+        ang_now = m.df[["phi", "theta", "psi"]].to_numpy()
+        ang_now[0] = a2
+        m.df["phi"], m.df["theta"], m.df["psi"] = ang_now[:, 0], ang_now[:, 1], ang_now[:, 2]
         m.df["shift_z"] = m.df["shift_z"].to_numpy() - 0.5
-        call_place(ctx, m, obj, m, **place_args(case)[1])
+        call_place(ctx, m, obj, m, **place_args(case, ctx, "c")[1])
     if not ok or not case["smooth"]:
+        return
+    if case.get("mask_dtype"):
+        run_place_dtype(ctx, case, m, obj, kw, out)
         return
     df = m.df
     n = len(df)
@@ -1132,6 +1288,38 @@ def run_place(ctx, case):
                                           "expected": expc.tolist(), "stamp_voxels": int(len(vox)), "template_voxels": int((T > LEVEL).sum())})
 
 
+def run_place_dtype(ctx, case, m, obj, kw, out):
+    """binary mask templates of an integer / bool dtype, random poses: the container must be the one obtained from the SAME values given as
+    float64 (the statement speaks about values, not about the array's dtype).  Voxels whose rotated float64 template value lies within
+    TOL_BAND of the threshold are undetermined (rotated with the real rotate, as place_object does, on the float64 copy)."""
+    as64 = lambda t: np.array(t, dtype=np.float64)
+    obj64 = [as64(t) for t in obj] if isinstance(obj, list) else as64(obj)
+    kw64 = dict(kw)
+    if isinstance(kw64.get("volume"), np.ndarray):
+        kw64["volume"] = np.array(kw64["volume"], copy=True)
+    ok, ref = call_place(ctx, m, obj64, m, **kw64)
+    if not ok or not isinstance(out, np.ndarray) or not isinstance(ref, np.ndarray) or out.shape != ref.shape:
+        ctx.check("place_dtype", False, {"what": "no comparable containers", "typed": list(np.shape(out)), "float64": list(np.shape(ref))})
+        return
+    P = gens.positions(m.df)
+    okr, rots = ctx.call("get_rotations", m.get_rotations)
+    und = np.zeros(ref.shape, dtype=bool)
+    if okr:
+        for i in range(len(P)):
+            T64 = obj64[i] if isinstance(obj64, list) else obj64
+            okk, r = ctx.call("rotate", ctx.cmap.rotate, T64, rotation=rots[i], transpose_rotation=True)
+            if okk:
+                O.stamp(und, np.abs(r - LEVEL) <= TOL_BAND, O.window_start(P[i] - 1.0, T64.shape), True)
+    bad = (out.astype(float) != ref.astype(float)) & ~und
+    w = None
+    if bad.any():
+        j = np.argwhere(bad)[0]
+        w = {"what": "container differs between a %s mask template and the same values as float64" % case["mask_dtype"], "voxel": j.tolist(),
+             "typed": float(out[tuple(j)]), "float64": float(ref[tuple(j)]), "n_wrong": int(bad.sum()), "n_stamped_float64": int((ref != (case["bg"] if case["bg"] is not None else 0)).sum()),
+             "n_undetermined": int(und.sum()), "n_particles": len(P)}
+    ctx.check("place_dtype", w is None, w)
+
+
 def dirty_heap(shape):
     """free a few same-size arrays of junk, so that an accumulator taken from uninitialised memory shows"""
     junk = [np.full(shape, 1e30) for _ in range(3)]
@@ -1170,7 +1358,17 @@ def judge_sym_blob(ctx, B, shape, n, sym, vol):
 
 def run_sym(ctx, case):
     n, shape = case["n"], case["shape"]
-    vol = case["noise"] if case["content"] == "noise" else case["blob"].render(shape)
+    vol = relayout(case["noise"] if case["content"] == "noise" else case["blob"].render(shape), case["layout"])
+    if case["content"] == "blob" and case["typed"] is not None:
+        vt = relayout(typed_map(np.asarray(vol), case["typed"]), case["layout"])
+        ok1, a = call_sym(ctx, vt, n, case["spelling"])
+        ok2, b = call_sym(ctx, np.array(vt, dtype=np.float64), n, case["spelling"])
+        if ok1 and ok2 and isinstance(a, np.ndarray) and isinstance(b, np.ndarray) and a.shape == b.shape:
+            d = np.abs(a.astype(float) - b)
+            mx = float(np.abs(vt.astype(float)).max())
+            ctx.check("sym_dtype", d.max() <= TOL_SYM_ANALYTIC * mx,
+                      {"what": "symmetrising a %s map differs from symmetrising the same values as float64" % vt.dtype, "kind": case["typed"][0], "n": n,
+                       "max_abs_diff_over_max": float(d.max() / mx), "result_dtype": str(a.dtype)})
     ok, sym = call_sym(ctx, vol, n, case["spelling"])       # judged by sym_mean (+ sym_invariant_exact, + rotate_cube for the right-angle copies)
     if not ok:
         return
@@ -1207,6 +1405,8 @@ def run_link(ctx, case):
     c = O.centre(T.shape)
     T[tuple(c + v)] = 1.0
     obj_ok, out = call_place(ctx, m, T, m, volume_shape=tuple(case["V"]))
+    if not case["inplace"]:
+        call_place(ctx, m2, T, m2, volume_shape=tuple(case["V"]))          # the list another anchor returned: judged by place_cube
     for i in range(n):
         a = case["df"][["phi", "theta", "psi"]].to_numpy()[i].tolist()
         ok, rt = ctx.call("rotate", cmap.rotate, T, rotation_angles=a)
@@ -1320,7 +1520,7 @@ def extra(ctx):
     ctx.extra["option_grid_extract_cases (window class x coordinate type x shape type)"] = grid
     grid = 0
     for per_particle in (False, True):
-        for container in ("shape_tuple", "shape_list", "volume_zeros", "volume_bg64", "volume_bg32"):
+        for container in ("shape_tuple", "shape_list", "volume_zeros", "volume_bg64", "volume_bg32", "volume_bg64_F", "volume_bg64_transposed", "volume_bg32_path"):
             for feature in ("default", "object_id", "class", "geom1", "score", "subtomo_id", "geom4"):
                 r2 = ctx.rng(10 ** 6 + 500 + grid)
                 case = gen_place(r2, "place_overlap" if grid % 2 else "place_cube", False, force={"n": 3 + grid % 4, "per_particle": per_particle, "container": container, "feature": feature})
